@@ -13,6 +13,20 @@ class C01(SessionCheck):
         "modelled: Dispatcher.dispatch/reset, Schedule.add/is_complete, ScheduledOperation.__init__ "
         "(coq/model/World.v) — tied by differential execution of event scripts, not verified"]
 
+    def gen_cases(self, rng, n):
+        cases = super().gen_cases(rng, n)
+        # one LARGE instance per run (more than 256 operations): "complete after exactly one accepted dispatch per
+        # operation" for counts beyond the small integers; sparsely observed to keep the case small
+        from . import common, gen
+
+        for _ in range(1 if self.tier == "quick" else 4):
+            nj = rng.randint(86, 100)
+            spec = [[[[rng.randrange(4)], rng.randint(0, 3)] for _ in range(3)] for _ in range(nj)]
+            events, _stats = gen.gen_session(rng, spec, p_snapshot=0.02, max_events=3 * nj + 40, stop_early=0.0)
+            cases.append({"spec": spec, "filters": [], "events": events})
+            self.note("large_instance_more_than_256_operations")
+        return cases
+
     def judge(self, case, obs, outs):
         model_out, clauses = outs
         fails = self.tie_failures(case, obs, model_out)
